@@ -123,12 +123,20 @@ CLAIMED = {
              tech="Coq proof (small-step loader refines atomic spec) + runtime observer at every line-read point compared with the model trace", ref="DESIGN.md section 4 C11"),
  "C12": dict(text="PARTIAL. Coq: frame theorem over a heap model of which objects each public call allocates, reads and writes (copies for fingerprinting, "
                   "copy_buffer before extract_lines, new layers for impersonate_tcp, impersonate_mtu writes its argument only), and no non-load call changes "
-                  "the database. The model is thin: that bytes(packet), Scapy's '/', FlagValue operators and h11 buffers do not touch their operands is "
-                  "runtime behaviour no Gallina model can exhibit. Decisive half: before/after snapshots (bytes, command(), explicit-field maps per layer, "
-                  "buffer bytes/length/cursors, deep database dump) around every call of random call sequences on sniffed and constructed packets and all "
-                  "three buffer types.",
-             note="Trusted: Coq kernel for the frame lemma; the runtime monitor (harness/props/c12.py), CPython/Scapy/h11 object semantics. No axioms.",
-             tech="Coq frame lemma over a heap model (partial) + runtime before/after object monitor", ref="DESIGN.md section 4 C12, section 7"),
+                  "the database. Tie regenerated on every run: translate/eff2coq.py derives from /repo's CURRENT source (all modules; a fail-closed, flow-insensitive, "
+                  "interprocedural may-write analysis over the AST: parameters and what is reachable from them, module-level objects, fresh allocations; which caller "
+                  "objects are handed to library code; what the result may alias) the effect summary of fingerprint_tcp / mtu / uptime / http, parse_packet, read_payload, "
+                  "impersonate_tcp, impersonate_mtu, Database.load, get_random, iter_values as Gallina data; coq/Gen/GenEffP.v proves from that data: the fingerprint "
+                  "calls write nothing and hand their input to library code only for bytes() / .copy() / __class__, impersonate_tcp writes only the random generator "
+                  "and its result aliases no parameter, impersonate_mtu writes exactly its packet (and the generator), the database readers write nothing, no module-level "
+                  "object but the generator is ever written, the summaries agree with the model's write set (gen_model_agrees) and hence the frame theorem holds for the "
+                  "calls as summarised from the code (C12_translated_frame). Still partial: that bytes(packet), Packet.copy(), Scapy's '/', FlagValue operators and h11 buffers "
+                  "do not touch their operands is library behaviour, listed as assumed externals in the generated file and covered by the decisive run-time half: before/after "
+                  "snapshots (bytes, command(), explicit-field maps per layer, buffer bytes/length/cursors, deep database dump) around every call of random call sequences on "
+                  "sniffed and constructed packets and all three buffer types.",
+             note="Trusted: Coq kernel; translate/eff2coq.py (abstract domain, call resolution, tables of assumed-pure / mutating externals - printed into Gen/GeneratedEff.v; three facts "
+                  "re-checked on the installed Scapy / h11 sources on every run); the runtime monitor (harness/props/c12.py), CPython/Scapy/h11 object semantics. No axioms.",
+             tech="Coq frame lemma over a heap model + effect summaries regenerated from the source and proved to agree with it (partial) + runtime before/after object monitor", ref="DESIGN.md section 4 C12, section 7, section 16g"),
  "C16": dict(text="Coq theorems over the API state machine (state = loaded database): the output of a call after ANY history equals its history-free value "
                   "on the database of the last successful load; histories with the same last load agree; non-load calls preserve the database; repeating a "
                   "call repeats its result. " + TIE + GEN + " For C16 the translated pieces are composed end to end (Gen/GenApiC.v: gen_run_ops_eq, C16_translated_history). Histories of 30 interleaved calls (reloads, raw / freshly parsed / REUSED parsed packets with "
@@ -173,7 +181,7 @@ def main():
                            "level_claimed": {"category": "proof", "text": c["text"], "design_ref": c["ref"]},
                            "level_note": c["note"], "technique": c["tech"]})
     m = {"version": 1,
-         "setup_cmd": "cd coq && coq_makefile -f _CoqProject -o Makefile && timeout 3000 make -j16 && cd ../ocaml && make && cd .. && /venv/bin/python -c \"from harness import core; print(core.gen_tie()['ok'], core.gen_tie_imp()['ok'], core.gen_tie_sig()['ok'], core.gen_tie_file()['ok'], core.gen_tie_httpx()['ok'])\"",
+         "setup_cmd": "cd coq && coq_makefile -f _CoqProject -o Makefile && timeout 3000 make -j16 && cd ../ocaml && make && cd .. && /venv/bin/python -c \"from harness import core; print(core.gen_tie()['ok'], core.gen_tie_imp()['ok'], core.gen_tie_sig()['ok'], core.gen_tie_file()['ok'], core.gen_tie_httpx()['ok'], core.gen_tie_eff()['ok'])\"",
          "hooks": {"guard": "PYP0F_VERIF",
                    "enable": "no source hooks: harness/worker.py replaces time.time_ns / random.* / builtins.open before importing pyp0f; PYTHONPATH=/repo",
                    "baseline_off_cmd": "cd /repo && /venv/bin/python -m pytest -q -p no:cacheprovider --timeout=900",
